@@ -48,6 +48,6 @@ STREAMS = [
     simlib.lookups_stream(lambda c, o: simprops.mon_c01(c, o) + simprops.mon_c10(c, o), quick_n=200),
 ]
 
-LEVEL_TEXT = 'Proof: Lean 4 invariants over the channel model for every history (any interleaving of API calls, replies, timer expiry, socket failures, and API calls made from inside callbacks): index/ownership well-formedness, no released query/connection/compound request is used again, no token is called back twice, cancel/destroy complete everything. Tie: the real channel is run against the model step by step on generated re-entrant histories under ASan/UBSan; monitors count callbacks per token.'
+LEVEL_TEXT = 'Proof: Lean 4 invariants over the channel model for every history (any interleaving of API calls, replies, timer expiry, socket failures, and API calls made from inside callbacks): index/ownership well-formedness, no released query/connection/compound request is used again, no token is called back twice, cancel/destroy complete everything and after a completed destroy no connection is left (C01b). Tie: the real channel is run against the model step by step on generated re-entrant histories under ASan/UBSan; monitors count callbacks per token.'
 LEVEL_NOTE = "Trusted: Lean kernel; the hand-written model's faithfulness as far as the correspondence stream exercises it (entry points raw send / query / search / getaddrinfo; gethostbyname, gethostbyaddr, getnameinfo are not modelled); virtual sockets, clock and RNG. Heap safety itself is observed (ASan), not proved."
 TECHNIQUE = 'Lean 4 invariant proof over an executable channel state machine + differential trace correspondence with the real channel'
